@@ -115,6 +115,28 @@ func checkC07(c *core.Ctx, l *core.Ledger) {
 					if ex, ok := v.(*ssa.Extract); ok && ex.Tuple == ssa.Value(cut) && ex.Index == 2 {
 						return core.CVal{Kind: core.CBool, B: w.found}, true
 					}
+					if bo, ok := v.(*ssa.BinOp); ok {
+						// len(before) compared with 0 or 1 in any spelling
+						if call, isCall := bo.X.(*ssa.Call); isCall {
+							if bi, isB := call.Call.Value.(*ssa.Builtin); isB && bi.Name() == "len" {
+								if ex, isEx := call.Call.Args[0].(*ssa.Extract); isEx && ex.Tuple == ssa.Value(cut) && ex.Index == 0 {
+									if k, isK := core.ConstInt(bo.Y); isK {
+										empty := w.empty
+										var res, known bool
+										switch {
+										case k == 0 && bo.Op == token.GTR, k == 0 && bo.Op == token.NEQ, k == 1 && bo.Op == token.GEQ:
+											res, known = !empty, true
+										case k == 0 && bo.Op == token.EQL, k == 0 && bo.Op == token.LEQ, k == 1 && bo.Op == token.LSS:
+											res, known = empty, true
+										}
+										if known {
+											return core.CVal{Kind: core.CBool, B: res}, true
+										}
+									}
+								}
+							}
+						}
+					}
 					if bo, ok := v.(*ssa.BinOp); ok && (bo.Op == token.EQL || bo.Op == token.NEQ) {
 						isBefore := func(x ssa.Value) bool {
 							ex, ok := x.(*ssa.Extract)
